@@ -92,7 +92,7 @@ func genC15(r *Rand, tier string, ord int) *Trial {
 			t.Params["trimflag"] = "1"
 		}
 	case "cli-vs-pkg":
-		form := []string{"toma", "topa-stdout", "topa-dir", "variants", "samvariants", "snps", "snps-agg", "closest", "closestn", "updownlist", "topranking"}[r.Intn(11)]
+		form := []string{"toma", "topa-stdout", "topa-dir", "variants", "samvariants", "snps", "snps-agg", "closest", "closestn", "updownlist", "topranking", "variants-stdin", "variants-annoref"}[r.Intn(13)]
 		t.Case = *genCmdCase(r, form, caseSize{})
 		t.Params["form"] = form
 	case "topa-window", "topa-wrap":
@@ -129,6 +129,16 @@ func genC15(r *Rand, tier string, ord int) *Trial {
 			ref, _, q = genUpdownAln(r, w, 0, nseq)
 			an = genAnno(r, ref, true, 0.1)
 			all := Aln{Names: append([]string{"ref"}, q.Names...), Seqs: append([]string{ref}, q.Seqs...)}
+			if kind == "variants-stdin" && r.P(0.2) {
+				// the reference's name again further down (cat ref.fa aln.fa, where aln.fa already holds the reference)
+				k := r.Range(1, len(all.Names))
+				dup := ref
+				if r.P(0.3) {
+					dup = all.Seqs[r.Intn(len(all.Seqs))]
+				}
+				all.Names = append(all.Names[:k:k], append([]string{"ref"}, all.Names[k:]...)...)
+				all.Seqs = append(all.Seqs[:k:k], append([]string{dup}, all.Seqs[k:]...)...)
+			}
 			c = &Case{Cmd: "variants", Files: map[string]string{"msa": all.FASTA(genLayout(r))}}
 			c.Opts.RefID = "ref"
 		}
@@ -470,6 +480,9 @@ func checkC15(t *Trial, ctx *Ctx) *Failure {
 		}
 		if res.outputKey() != b.outputKey() {
 			return fail("command-line-differs-from-library-call", fmt.Sprintf("gofasta %v", cc.Opts.Args), res)
+		}
+		if _, ok := cc.Files["stdin"]; ok {
+			ctx.Probe("cli_main_input_piped", 1)
 		}
 		ctx.Nontrivial()
 	case "variants-stdin":
